@@ -380,15 +380,20 @@ Proof.
       destruct (reforward c s1) eqn:RF; inversion H; subst; clear H.
       * destruct (reforward_true _ _ RF) as [N W].
         match goal with |- summary _ _ _ _ (use_destinations c r ?x) _ =>
-          destruct (use_destinations_view c r x) as [[A1 [A2 A3]] B] end.
+          destruct (use_destinations_view c r x) as [[A1 [A2 A3]] B];
+          set (sf := use_destinations c r x) in * end.
         simpl in A1, A2, A3.
-        constructor; simpl; intros; auto; try congruence; try lia.
+        assert (E1 : sends [OReforward] = 0) by reflexivity.
+        assert (E2 : reforwards [OReforward] = 1) by reflexivity.
+        constructor.
+        -- left; exact E1.
+        -- intros _. congruence.
         -- right. repeat split; auto; congruence.
-        -- discriminate.
-        -- destruct B as [B|B]; [apply active_not_pending in H0; congruence | rewrite B in H0; discriminate].
-        -- congruence.
-        -- congruence.
-        -- left. congruence.
+        -- intros _ E. rewrite E2 in E. discriminate.
+        -- intros _ AC. destruct B as [B|B]; [apply active_not_pending in AC; congruence | rewrite B in AC; discriminate].
+        -- intros NB. congruence.
+        -- intros NB1 NB2. congruence.
+        -- intros HW. left. congruence.
       * apply summary_quiet; [repeat split; simpl; assumption | right; reflexivity].
     + inversion H; subst. apply summary_quiet; [repeat split | right; reflexivity].
     + inversion H; subst. apply summary_quiet; [repeat split | left; simpl; congruence].
@@ -396,3 +401,261 @@ Proof.
   (* ---- PhDone ---- *)
   - inversion H; subst. apply summary_quiet; [apply same3_refl | left; simpl; congruence].
 Qed.
+
+(* ---------- counting along runs ---------- *)
+Lemma sends_app a b : sends (a ++ b) = sends a + sends b.
+Proof. unfold sends. rewrite filter_app, lenN_app. reflexivity. Qed.
+Lemma reforwards_app a b : reforwards (a ++ b) = reforwards a + reforwards b.
+Proof. unfold reforwards. rewrite filter_app, lenN_app. reflexivity. Qed.
+
+Lemma run_app c r evs1 : forall s evs2,
+  run c r s (evs1 ++ evs2) =
+  (fst (run c r (fst (run c r s evs1)) evs2), snd (run c r s evs1) ++ snd (run c r (fst (run c r s evs1)) evs2)).
+Proof.
+  induction evs1 as [|e t IH]; intros s evs2; simpl.
+  - destruct (run c r s evs2); reflexivity.
+  - destruct (step c r s e) as [s1 o1]. rewrite IH.
+    destruct (run c r s1 t) as [s2 o2]. simpl.
+    destruct (run c r s2 evs2) as [s3 o3]. simpl. rewrite app_assoc. reflexivity.
+Qed.
+
+(* the invariant behind "at most one send (plus one per reforward() decision)" for a non-retriable request *)
+Definition Inv (s : st) (ns nr : N) : Prop :=
+  (s_cok s = false -> ns = 0) /\ (pending (s_phase s) = true -> ns <= nr) /\ ns <= nr + 1 /\
+  (active (s_phase s) = true -> s_cok s = true).
+
+Lemma inv_init : Inv init 0 0.
+Proof. unfold Inv, init; simpl. repeat split; intros; try lia; try discriminate. Qed.
+
+Lemma inv_step c r s e s' o ns nr :
+  check_retriable r = false -> Inv s ns nr -> step c r s e = (s', o) ->
+  Inv s' (ns + sends o) (nr + reforwards o).
+Proof.
+  intros NR [I1 [I2 [I3 I4]]] H. destruct (step_summary _ _ _ _ _ _ H) as [S1 S2 S3 S4 S5 _ _ _].
+  destruct S1 as [Z|[Z1 [Z2 [Z3 [Z4 [Z5 _]]]]]].
+  - (* nothing sent *)
+    specialize (S2 Z). rewrite Z.
+    destruct S3 as [R|[R1 [_ [R3 _]]]].
+    + rewrite R. specialize (S4 Z R).
+      unfold Inv. repeat split; intros.
+      * rewrite S2 in H0. specialize (I1 H0). lia.
+      * destruct (S4 H0) as [Q|[Q1 [_ [Q3|Q3]]]].
+        -- specialize (I2 Q). lia.
+        -- specialize (I1 Q3). lia.
+        -- congruence.
+      * lia.
+      * rewrite S2. apply I4. apply S5; assumption.
+    + rewrite R1. unfold Inv. repeat split; intros.
+      * rewrite S2 in H0. specialize (I1 H0). lia.
+      * lia.
+      * lia.
+      * rewrite S2. apply I4. exact R3.
+  - (* one send, from a pending phase *)
+    rewrite Z1, Z2. specialize (I2 Z3).
+    unfold Inv. repeat split; intros.
+    + congruence.
+    + apply active_not_pending in Z4. congruence.
+    + lia.
+    + exact Z5.
+Qed.
+
+Lemma inv_run c r evs : forall s ns nr,
+  check_retriable r = false -> Inv s ns nr ->
+  Inv (fst (run c r s evs)) (ns + sends (snd (run c r s evs))) (nr + reforwards (snd (run c r s evs))).
+Proof.
+  induction evs as [|e t IH]; intros s ns nr NR I; simpl.
+  - replace (ns + sends []) with ns by (unfold sends; simpl; lia).
+    replace (nr + reforwards []) with nr by (unfold reforwards; simpl; lia). exact I.
+  - destruct (step c r s e) as [s1 o1] eqn:ST.
+    pose proof (inv_step _ _ _ _ _ _ _ _ NR I ST) as I1.
+    specialize (IH s1 _ _ NR I1).
+    destruct (run c r s1 t) as [s2 o2]. simpl in *.
+    rewrite sends_app, reforwards_app. rewrite !N.add_assoc. exact IH.
+Qed.
+
+(* MAIN: a request that checkRetriable() rejects is written on a connection at most once, plus once per
+   reforward() decision -- along every event sequence *)
+Theorem no_resend_nonretriable c r evs :
+  check_retriable r = false ->
+  sends (snd (run c r init evs)) <= 1 + reforwards (snd (run c r init evs)).
+Proof.
+  intros NR. destruct (inv_run c r evs init 0 0 NR inv_init) as [_ [_ [I3 _]]]. lia.
+Qed.
+
+Theorem no_resend_nonidempotent_method c r evs :
+  method_safe (r_method r) = false -> method_idem (r_method r) = false ->
+  sends (snd (run c r init evs)) <= 1 + reforwards (snd (run c r init evs)).
+Proof. intros A B. apply no_resend_nonretriable. apply nonidempotent_not_retriable; assumption. Qed.
+
+Theorem no_resend_with_body c r evs :
+  r_body r = true ->
+  sends (snd (run c r init evs)) <= 1 + reforwards (snd (run c r init evs)).
+Proof. intros A. apply no_resend_nonretriable. apply body_not_retriable; assumption. Qed.
+
+(* ---------- no re-forwardable reply header => reforward() never says yes ---------- *)
+Definition no_reforwardable_header (c : cfg) (e : event) : Prop :=
+  match e with EvHeaders st => reforwardable c st = false | _ => True end.
+
+Lemma no_reforward_run c r evs : forall s,
+  Forall (no_reforwardable_header c) evs -> s_hdr_wait s = false ->
+  s_hdr_wait (fst (run c r s evs)) = false /\ reforwards (snd (run c r s evs)) = 0.
+Proof.
+  induction evs as [|e t IH]; intros s F W; simpl.
+  - split; [exact W | reflexivity].
+  - inversion F as [|x l Fe Ft]; subst.
+    destruct (step c r s e) as [s1 o1] eqn:ST.
+    destruct (step_summary _ _ _ _ _ _ ST) as [_ _ S3 _ _ _ _ S8].
+    assert (W1 : s_hdr_wait s1 = false).
+    { destruct (s_hdr_wait s1) eqn:E; [|reflexivity].
+      destruct (S8 eq_refl) as [Q|[st [Q1 Q2]]]; [congruence|].
+      subst e. simpl in Fe. congruence. }
+    assert (R1 : reforwards o1 = 0).
+    { destruct S3 as [R|[_ [_ [_ [R _]]]]]; [exact R | congruence]. }
+    destruct (IH s1 Ft W1) as [A B].
+    destruct (run c r s1 t) as [s2 o2]. simpl in *.
+    split; [exact A|]. rewrite reforwards_app. lia.
+Qed.
+
+(* the property for connection failures: whatever fails, however often and on whichever path or connection, as long
+   as no reply header with a re-forwardable status is received the request is written at most once *)
+Theorem at_most_one_send c r evs :
+  check_retriable r = false -> Forall (no_reforwardable_header c) evs ->
+  sends (snd (run c r init evs)) <= 1.
+Proof.
+  intros NR F. pose proof (no_resend_nonretriable c r evs NR) as A.
+  destruct (no_reforward_run c r evs init F eq_refl) as [_ B]. lia.
+Qed.
+
+(* ---------- once body bytes were consumed the request is never sent again ---------- *)
+Definition NP (s : st) : Prop := s_nibbled s = true -> pending (s_phase s) = false.
+
+Lemma np_init : NP init.
+Proof. unfold NP, init; simpl. discriminate. Qed.
+
+Lemma nibbled_step c r s e s' o :
+  NP s -> step c r s e = (s', o) ->
+  NP s' /\ (s_nibbled s = true -> s_nibbled s' = true /\ sends o = 0 /\ reforwards o = 0).
+Proof.
+  intros I H. destruct (step_summary _ _ _ _ _ _ H) as [S1 S2 S3 S4 S5 S6 S7 _].
+  assert (K : s_nibbled s = true -> s_nibbled s' = true /\ sends o = 0 /\ reforwards o = 0 /\ pending (s_phase s') = false).
+  { intros N. specialize (I N). specialize (S6 N).
+    assert (Z : sends o = 0) by (destruct S1 as [Z|[_ [_ [Z _]]]]; [exact Z | congruence]).
+    assert (R : reforwards o = 0) by (destruct S3 as [R|[_ [_ [_ [_ R]]]]]; [exact R | congruence]).
+    repeat split; auto.
+    destruct (pending (s_phase s')) eqn:E; [|reflexivity].
+    destruct (S4 Z R eq_refl) as [Q|[_ [Q _]]]; congruence. }
+  split.
+  - intros N'. destruct (s_nibbled s) eqn:N.
+    + destruct (K eq_refl) as [_ [_ [_ Q]]]. exact Q.
+    + destruct (S7 eq_refl N') as [A _]. apply active_not_pending. exact A.
+  - intros N. destruct (K N) as [A [B [C _]]]. auto.
+Qed.
+
+Lemma nibbled_run c r evs : forall s,
+  NP s -> NP (fst (run c r s evs)) /\
+          (s_nibbled s = true -> sends (snd (run c r s evs)) = 0 /\ reforwards (snd (run c r s evs)) = 0).
+Proof.
+  induction evs as [|e t IH]; intros s I; simpl.
+  - split; [exact I | intros _; split; reflexivity].
+  - destruct (step c r s e) as [s1 o1] eqn:ST.
+    destruct (nibbled_step _ _ _ _ _ _ I ST) as [I1 K].
+    destruct (IH s1 I1) as [A B].
+    destruct (run c r s1 t) as [s2 o2]. simpl in *.
+    split; [exact A|]. intros N. destruct (K N) as [N1 [Z1 R1]]. destruct (B N1) as [Z2 R2].
+    rewrite sends_app, reforwards_app. lia.
+Qed.
+
+Theorem no_send_after_body_consumed c r evs1 evs2 :
+  s_nibbled (fst (run c r init evs1)) = true ->
+  sends (snd (run c r init (evs1 ++ evs2))) = sends (snd (run c r init evs1)) /\
+  reforwards (snd (run c r init (evs1 ++ evs2))) = reforwards (snd (run c r init evs1)).
+Proof.
+  intros N. rewrite run_app. simpl.
+  destruct (nibbled_run c r evs1 init np_init) as [I _].
+  destruct (nibbled_run c r evs2 _ I) as [_ B]. destruct (B N) as [Z R].
+  rewrite sends_app, reforwards_app. lia.
+Qed.
+
+(* ---------- the closed loop used by the correspondence run is `run` on the event list it reports ---------- *)
+Lemma drive_is_run fuel : forall c r en s s' tr evs okf,
+  drive fuel c r en s = (s', tr, evs, okf) -> run c r s evs = (s', tr).
+Proof.
+  induction fuel as [|f IH]; intros c r en s s' tr evs okf H; simpl in H.
+  - inversion H; subst. reflexivity.
+  - destruct (next_event en s) as [[ev en1]|].
+    + destruct (step c r s ev) as [s1 o1] eqn:ST.
+      destruct (drive f c r (after_outputs r en1 o1) s1) as [[[s2 o2] evs2] ok2] eqn:D.
+      inversion H; subst; clear H. simpl. rewrite ST. rewrite (IH _ _ _ _ _ _ _ _ D). reflexivity.
+    + inversion H; subst. reflexivity.
+Qed.
+
+(* ---------- examples and the refutation of the full statement ---------- *)
+Definition cfg_default : cfg := mkCfg 25 false false.
+Definition req_post_nobody : req := mkReq rm_METHOD_POST false.
+Definition req_post_body : req := mkReq rm_METHOD_POST true.
+Definition req_get : req := mkReq rm_METHOD_GET false.
+
+(* two paths; the first attempt's reply (502, re-forwardable) is cut in the body by a connection close: the body-less
+   POST is written again on the second path. No reply was ever received completely. *)
+Definition witness_evs : list event :=
+  [EvNewDest; EvNewDest; EvDestsEnd; EvConn false true false; EvHeaders 502; EvComplete true;
+   EvConn false true false; EvFail FZero].
+
+Lemma resend_after_truncated_reply_witness :
+  exists c r evs,
+    r_method r = rm_METHOD_POST /\ check_retriable r = false /\
+    Forall (fun e => e <> EvComplete false) evs /\
+    sends (snd (run c r init evs)) = 2.
+Proof.
+  exists cfg_default, req_post_nobody, witness_evs.
+  split; [reflexivity|]. split; [vm_compute; reflexivity|]. split.
+  - unfold witness_evs. repeat constructor; discriminate.
+  - vm_compute. reflexivity.
+Qed.
+
+(* a failed connect sends nothing: the request may still go out once, on the next path *)
+Lemma post_after_refused_connect :
+  check_retriable req_post_body = false /\
+  snd (run cfg_default req_post_body init
+         [EvNewDest; EvNewDest; EvDestsEnd; EvConn false false false; EvConn false true false;
+          EvBodyConsumed; EvHeaders 200; EvComplete false]) = [OSend 1 false].
+Proof. split; vm_compute; reflexivity. Qed.
+
+(* safe methods are retried: on another path ... *)
+Lemma get_retried_on_other_path :
+  check_retriable req_get = true /\
+  snd (run cfg_default req_get init
+         [EvNewDest; EvNewDest; EvDestsEnd; EvConn false true false; EvFail FZero; EvConn false true false;
+          EvHeaders 200; EvComplete false]) = [OSend 0 false; OSend 1 false].
+Proof. split; vm_compute; reflexivity. Qed.
+
+(* ... and after a persistent-connection race: same path, reinstated, fresh connection *)
+Lemma get_retried_after_pconn_race :
+  snd (run cfg_default req_get init
+         [EvNewDest; EvDestsEnd; EvConn true true false; EvFail FZero; EvConn false true false;
+          EvHeaders 200; EvComplete false]) = [OSend 0 true; OSend 0 false].
+Proof. vm_compute; reflexivity. Qed.
+
+(* the same race with a POST on a reused connection (server_pconn_for_nonretriable): not sent again *)
+Lemma post_not_retried_after_pconn_race :
+  snd (run (mkCfg 25 true false) req_post_nobody init
+         [EvNewDest; EvDestsEnd; EvConn true true false; EvFail FZero; EvConn false true false;
+          EvHeaders 200; EvComplete false]) = [OSend 0 true].
+Proof. vm_compute; reflexivity. Qed.
+
+(* hypotheses of the theorems are satisfiable *)
+Lemma witness_has_reforwardable_header : ~ Forall (no_reforwardable_header cfg_default) witness_evs.
+Proof.
+  intros F. unfold witness_evs in F.
+  repeat match goal with H : Forall _ (_ :: _) |- _ => inversion H; subst; clear H end.
+  match goal with H : no_reforwardable_header _ (EvHeaders 502) |- _ => vm_compute in H; discriminate end.
+Qed.
+
+Lemma pconn_race_examples :
+  snd (run cfg_default req_get init
+         [EvNewDest; EvDestsEnd; EvConn true true false; EvFail FZero; EvConn false true false;
+          EvHeaders 200; EvComplete false]) = [OSend 0 true; OSend 0 false] /\
+  snd (run (mkCfg 25 true false) req_post_nobody init
+         [EvNewDest; EvDestsEnd; EvConn true true false; EvFail FZero; EvConn false true false;
+          EvHeaders 200; EvComplete false]) = [OSend 0 true].
+Proof. exact (conj get_retried_after_pconn_race post_not_retried_after_pconn_race). Qed.
